@@ -9,11 +9,17 @@ from . import wave as W
 FEATS = ['unconn_in', 'unconn_out', 'ff_no_d', 'out_read', 'wiring', 'consts', 'floating', 'ff_unread']
 
 
-def gen_case(rng, max_gates=30, xor_rich=None, caps=None, feats=None, sims=None, multi=None):
+def gen_case(rng, max_gates=30, xor_rich=None, caps=None, feats=None, sims=None, multi=None, large=False):
     feats = [f for f in FEATS if rng.random() < 0.25] if feats is None else feats
     xr = rng.random() < 0.4 if xor_rich is None else xor_rich
-    net = G.gen_net(rng, n_gates=rng.randint(1, max_gates), n_in=rng.randint(1, 6), n_ff=rng.choice([0, 0, 1, 2, 3]),
-                    feats=feats, xor_rich=xr)
+    if large:
+        # beyond the usual sizes: several hundred gates, > 1024 lines, > 65535 rows of signal memory, dozens of ports and state elements
+        net = G.gen_net(rng, n_gates=rng.choice([350, 600]), n_in=rng.choice([3, 24]), n_ff=rng.choice([0, 12, 36]), n_out=rng.choice([2, 18]), feats=feats, xor_rich=False)
+        sims = sims or rng.choice([1, 2, 3])
+        caps = caps or rng.choice([48, 72])
+    else:
+        net = G.gen_net(rng, n_gates=rng.randint(1, max_gates), n_in=rng.randint(1, 6), n_ff=rng.choice([0, 0, 1, 2, 3]),
+                        feats=feats, xor_rich=xr)
     return {
         'net': net, 'feats': feats,
         'cls': rng.choice(['cpu', 'cpu', 'cuda']),
